@@ -163,6 +163,7 @@ func (i *comparableInternalNode) deleteKey(minSize int, key Comparable) bool {
 		defer leftSibling.unlock()
 		if leftCount = leftSibling.count(); leftCount > minSize {
 			child.adoptFromLeft(leftSibling)
+			i.runts[index] = child.smallest()
 			return false
 		}
 	}
